@@ -18,7 +18,7 @@
    The non-ASCII behaviour (byte/char offsets drifting apart, replace_range off a char boundary) is
    C07's finding and is not covered here. *)
 From Coq Require Import List Bool Arith Lia ZifyBool ZifyN.
-From TS Require Import Model.Str Model.Outcome Model.Unicode Model.Rename Model.Lang.Common Model.Lang.Go.
+From TS Require Import Model.Str Model.Outcome Model.Unicode Model.Rename Model.Types Model.Lang.Common Model.Lang.Go.
 Import ListNotations.
 Local Open Scope N_scope.
 Local Notation length := List.length (only parsing).
@@ -770,6 +770,104 @@ Theorem ga_acronyms_ty_show t s : ga_ascii (go_show t) ->
 Proof. intros Ha. exists (ga_ty_map ga_T t). split; [now apply ga_acronyms_ty|now apply ga_ty_agree]. Qed.
 End GATY.
 
+(* ================================================================== ASCII programs print ASCII Go types *)
+(* the user type names a Rust type mentions *)
+Fixpoint ga_rtype_ids (t : rtype) : list str :=
+  match t with
+  | RSimple id => [id]
+  | RGeneric id ps => id :: flat_map ga_rtype_ids ps
+  | RVec x | RArray x _ | RSlice x | ROption x => ga_rtype_ids x
+  | RHashMap k v => ga_rtype_ids k ++ ga_rtype_ids v
+  | RPrim _ => []
+  end.
+(* every type name of t and every type_mappings value of the configuration is ASCII *)
+Definition ga_texp_asciib (cfg : go_config) (t : rtype) : bool :=
+  forallb (fun kv => forallb is_ascii (snd kv)) (go_type_mappings cfg) && forallb (forallb is_ascii) (ga_rtype_ids t).
+
+Lemma ga_is_mmapM {St A B} (f : A -> M St B) (l : list A) :
+  (fix go (l : list A) : M St (list B) :=
+     match l with
+     | [] => ret []
+     | x :: r => mbind (f x) (fun y => mbind (go r) (fun ys => ret (y :: ys)))
+     end) l = mmapM f l.
+Proof. induction l as [|x r IH]; cbn [mmapM]; [reflexivity|]. rewrite IH. reflexivity. Qed.
+
+Lemma ga_mbind_ok {St A B} (m : M St A) (f : A -> M St B) s r s' :
+  mbind m f s = Ok (r, s') -> exists a s1, m s = Ok (a, s1) /\ f a s1 = Ok (r, s').
+Proof. unfold mbind. destruct (m s) as [[a s1]| |]; try discriminate. eauto. Qed.
+
+Lemma ga_ascii_join_intro sep l : ga_ascii sep -> Forall ga_ascii l -> ga_ascii (join sep l).
+Proof.
+  intros Hs H. induction H as [|x r Hx Hr IH]; [constructor|]. destruct r as [|y r']; [exact Hx|].
+  change (join sep (x :: y :: r')) with (x ++ sep ++ join sep (y :: r')). apply ga_ascii_app. split; [exact Hx|].
+  apply ga_ascii_app. split; [exact Hs|exact IH].
+Qed.
+
+Lemma ga_dec_ascii n : ga_ascii (dec_of_N n).
+Proof.
+  unfold dec_of_N. generalize 60%nat as f. intros f.
+  assert (G : forall n acc, ga_ascii acc -> ga_ascii (dec_fuel f n acc)).
+  { induction f as [|f IH]; intros m acc H; cbn [dec_fuel]; [exact H|].
+    assert (Hd : 48 + m mod 10 < 128) by (pose proof (N.mod_upper_bound m 10); lia).
+    destruct (m / 10 =? 0); [constructor; assumption|apply IH; constructor; assumption]. }
+  apply G. constructor.
+Qed.
+
+Lemma ga_tmap_get_ascii m k v : forallb (fun kv => forallb is_ascii (snd kv)) m = true -> tmap_get m k = Some v -> ga_ascii v.
+Proof.
+  induction m as [|[a b] r IH]; cbn [tmap_get forallb snd]; [discriminate|]. intros H. apply andb_true_iff in H as [Hb Hr].
+  destruct (str_eqb a k); [intros [= <-]; now apply ga_ascii_b|now apply IH].
+Qed.
+
+Lemma ga_lit_ascii s : forallb is_ascii (lit s) = true -> ga_ascii (lit s).
+Proof. apply ga_ascii_b. Qed.
+
+Lemma ga_texp_ascii cfg g t :
+  forallb (fun kv => forallb is_ascii (snd kv)) (go_type_mappings cfg) = true ->
+  forallb (forallb is_ascii) (ga_rtype_ids t) = true ->
+  forall s x s', go_texp cfg g t s = Ok (x, s') -> ga_ascii (go_show x).
+Proof.
+  intros Hm. induction t as [id|id ps IH|t IH|t n IH|t IH|k v IHk IHv|t IH|p] using rtype_ind'; intros Hid s x s' H; cbn [go_texp] in H.
+  - cbn [ga_rtype_ids forallb] in Hid. apply andb_true_iff in Hid as [Hid _]. unfold ret in H. injection H as <- _.
+    destruct (tmap_get (go_type_mappings cfg) id) eqn:E; [exact (ga_tmap_get_ascii _ _ _ Hm E)|now apply ga_ascii_b].
+  - cbn [ga_rtype_ids forallb] in Hid. apply andb_true_iff in Hid as [Hid0 Hids].
+    destruct (tmap_get (go_type_mappings cfg) id) eqn:E.
+    + unfold ret in H. injection H as <- _. exact (ga_tmap_get_ascii _ _ _ Hm E).
+    + rewrite ga_is_mmapM in H. apply ga_mbind_ok in H as (xs & s1 & Exs & H). unfold ret in H. injection H as <- _.
+      assert (Hxs : Forall (fun y => ga_ascii (go_show y)) xs).
+      { clear E Hid0. revert s xs s1 Exs. induction IH as [|p0 r Hp _ IHr]; intros s xs s1 Exs; cbn [mmapM] in Exs.
+        - unfold ret in Exs. injection Exs as <- _. constructor.
+        - cbn [flat_map] in Hids. rewrite forallb_app in Hids. apply andb_true_iff in Hids as [H0 Hr].
+          apply ga_mbind_ok in Exs as (y & s2 & Ey & Exs). apply ga_mbind_ok in Exs as (ys & s3 & Eys & Exs).
+          unfold ret in Exs. injection Exs as <- _. constructor; [exact (Hp H0 _ _ _ Ey)|exact (IHr Hr _ _ _ Eys)]. }
+      apply ga_ascii_b in Hid0. destruct xs as [|x0 xr]; [exact Hid0|].
+      change (go_show (GName id (x0 :: xr))) with (id ++ lit "[" ++ join (lit ", ") (map go_show (x0 :: xr)) ++ lit "]").
+      repeat (apply ga_ascii_app; split); try exact Hid0; try (apply ga_ascii_b; reflexivity).
+      apply ga_ascii_join_intro; [apply ga_ascii_b; reflexivity|now rewrite Forall_map].
+  - destruct (tmap_get (go_type_mappings cfg) _) eqn:E; [unfold ret in H; injection H as <- _; exact (ga_tmap_get_ascii _ _ _ Hm E)|].
+    apply ga_mbind_ok in H as (e & s1 & Ee & H). unfold ret in H. injection H as <- _.
+    change (go_show (GSlice e)) with (91 :: 93 :: go_show e). repeat (constructor; [lia|]). exact (IH Hid _ _ _ Ee).
+  - destruct (tmap_get (go_type_mappings cfg) _) eqn:E; [unfold ret in H; injection H as <- _; exact (ga_tmap_get_ascii _ _ _ Hm E)|].
+    apply ga_mbind_ok in H as (e & s1 & Ee & H). unfold ret in H. injection H as <- _.
+    change (go_show (GArray n e)) with (91 :: (dec_of_N n ++ 93 :: go_show e)). constructor; [lia|].
+    apply ga_ascii_app. split; [apply ga_dec_ascii|]. constructor; [lia|]. exact (IH Hid _ _ _ Ee).
+  - destruct (tmap_get (go_type_mappings cfg) _) eqn:E; [unfold ret in H; injection H as <- _; exact (ga_tmap_get_ascii _ _ _ Hm E)|].
+    apply ga_mbind_ok in H as (e & s1 & Ee & H). unfold ret in H. injection H as <- _.
+    change (go_show (GSlice e)) with (91 :: 93 :: go_show e). repeat (constructor; [lia|]). exact (IH Hid _ _ _ Ee).
+  - destruct (tmap_get (go_type_mappings cfg) _) eqn:E; [unfold ret in H; injection H as <- _; exact (ga_tmap_get_ascii _ _ _ Hm E)|].
+    cbn [ga_rtype_ids] in Hid. rewrite forallb_app in Hid. apply andb_true_iff in Hid as [Hk Hv].
+    apply ga_mbind_ok in H as (ks & s1 & Ek & H). apply ga_mbind_ok in H as (vs & s2 & Ev & H). unfold ret in H. injection H as <- _.
+    change (go_show (GMap ks vs)) with (lit "map[" ++ go_show ks ++ 93 :: go_show vs).
+    apply ga_ascii_app. split; [apply ga_ascii_b; reflexivity|]. apply ga_ascii_app. split; [exact (IHk Hk _ _ _ Ek)|].
+    constructor; [lia|]. exact (IHv Hv _ _ _ Ev).
+  - destruct (tmap_get (go_type_mappings cfg) _) eqn:E; [unfold ret in H; injection H as <- _; exact (ga_tmap_get_ascii _ _ _ Hm E)|].
+    apply ga_mbind_ok in H as (e & s1 & Ee & H). unfold ret in H. injection H as <- _.
+    pose proof (IH Hid _ _ _ Ee) as He. destruct (is_vec t && go_no_pointer_slice cfg); [exact He|].
+    change (go_show (GPtr e)) with (42 :: go_show e). constructor; [lia|exact He].
+  - destruct (tmap_get (go_type_mappings cfg) _) eqn:E; [unfold ret in H; injection H as <- _; exact (ga_tmap_get_ascii _ _ _ Hm E)|].
+    destruct p; try (unfold ret in H; injection H as <- _; apply ga_ascii_b; reflexivity).
+Qed.
+
 (* ------------------------------------------------------------------ Boolean-hypothesis forms (for Props/) *)
 Lemma ga_ascii_list_b acrs : forallb (forallb is_ascii) acrs = true -> Forall ga_ascii acrs.
 Proof. intros H. apply Forall_forall. intros a Ha. apply ga_ascii_b. rewrite forallb_forall in H. now apply H. Qed.
@@ -781,4 +879,16 @@ Theorem ga_convert_case_only : forall uc, unicode_ok uc -> forall acrs name,
 Proof.
   intros uc Huc acrs name Ha Hn. destruct (ga_convert_ok uc Huc acrs (ga_ascii_list_b _ Ha) name (proj1 (ga_ascii_b name) Hn)) as (r & E & L & _ & U & _).
   exists r. auto.
+Qed.
+
+Theorem ga_acronyms_on_type : forall uc, unicode_ok uc ->
+  forall cfg, forallb (forallb ga_alnum) (go_uppercase_acronyms cfg) = true ->
+  forall (t : go_ty) s, forallb is_ascii (go_show t) = true ->
+    go_acronyms_ty uc cfg t s = Ok (ga_ty_map (ga_T cfg) t, s) /\
+    go_show (ga_ty_map (ga_T cfg) t) = ga_T cfg (go_show t) /\
+    length (ga_T cfg (go_show t)) = length (go_show t) /\
+    str_upper_ascii (ga_T cfg (go_show t)) = str_upper_ascii (go_show t).
+Proof.
+  intros uc Huc cfg Ha t s Ht. apply ga_ascii_b in Ht. split; [now apply ga_acronyms_ty|].
+  split; [now apply (ga_ty_agree uc Huc cfg Ha)|]. unfold ga_T, ga_result. split; [apply ga_apply_length|apply ga_apply_upper].
 Qed.
